@@ -102,15 +102,22 @@ func (d *sendreqDom) Gen(r *gen.R, tier string, emit func(string)) {
 		case 2:
 			pu = "F"
 		}
-		timeout := (2 + 2*r.Intn(3)) * u // even number of units
+		timeout := (2 + 2*r.Intn(4)) * u // even number of units
 		k := r.Intn(5)
 		args := []string{"send", ma, su, pu, strconv.Itoa(timeout), strconv.Itoa(k)}
 		t := 0
 		for j := 0; j < k; j++ {
-			t += (1 + 2*r.Intn(3)) * u // odd offsets: never on a deadline (deadlines are at even multiples... after extensions too)
+			if j == 0 {
+				t += (1 + 2*r.Intn(2)) * u // first arrival at an odd number of units
+			} else {
+				t += (2 + 2*r.Intn(2)) * u // later ones an even number of units apart: arrivals stay odd, deadlines even
+			}
 			m := r.Pick(sendMsgs)
+			if r.Chance(1, 3) {
+				m = sendMsgs[6] // a timeout extension
+			}
 			if strings.Contains(m, "%d") {
-				m = fmt.Sprintf(m, (1+2*r.Intn(3))*u+u) // even: keeps deadlines on even units relative to odd arrival times
+				m = fmt.Sprintf(m, (1+2*r.Intn(3))*u) // odd duration from an odd arrival time: the new deadline is even
 			}
 			args = append(args, strconv.Itoa(t), m)
 		}
